@@ -78,7 +78,9 @@ def check_case(case, ctx):
     if case.get("gl") is not None and case["mode"] != "all":
         req = req[:case["gl"]] + ["grid_level"] + req[case["gl"]:]
         ctx.label("grid_level-in-the-list")
-    ctx.label(*labs, "pos:" + pcls, f"normal:{cn}", "big" if case["big"] else "small", "cli" if case.get("cli") else "api")
+    # the command line is always used when the position is exactly 0.0 or the level limit is 0 (values that read as "not given")
+    use_cli = bool(case.get("cli")) or (parg is not None and float(parg) == 0.0) or (limit == 0 and not case["big"] and case["pos"]["index"] % 2 == 0)
+    ctx.label(*labs, "pos:" + pcls, f"normal:{cn}", "big" if case["big"] else "small", "cli" if use_cli else "api")
     if plot.payload.get("r_specials"):
         ctx.label("R-with-inf/huge/denormal-samples")
     if plot.payload.get("k_inf"):
@@ -93,7 +95,7 @@ def check_case(case, ctx):
         pools.set_schedule(None if case["serial"] else case["sched"])
         try:
             with poisoned_empty(pv):
-                if case.get("cli"):
+                if use_cli:
                     import amr_kitchen.mandoline.cli as cli
                     argv = ["mandoline", "src", "-n", str(cn), "-f", "plotfile", "-o", f"out{i}", "-V", "0", "-v"] + list(req)
                     argv += ["--position=" + repr(float(parg))] if parg is not None else []
@@ -108,7 +110,7 @@ def check_case(case, ctx):
         finally:
             pools.set_schedule(None)
     v = []
-    if not case.get("cli"):
+    if not use_cli:
         # history: the second and third plotfile-format slices written by one object equal the first slice of a fresh one
         from ..harness import tree_files
         ctx.label("history:reused-object")
